@@ -1,7 +1,77 @@
-(* Lemmas behind the C07 theorems. *)
+(* Lemmas behind the C07 theorems that are not part of the simulation proof
+   (Durable.v): what the durable image says, refutation witnesses, non-vacuity. *)
 From TV.Lib Require Import Base.
-From TV.Fs Require Import FsImpl FsSpec FsSafe FsDurable C10_proofs.
+From TV.Fs Require Import FsImpl FsSpec FsSafe FsDurable Facts View Refine Durable C10_proofs.
 Open Scope N_scope.
 
 Definition dimpl_out (bs : nat) (l : list op) (k : nat) : out := nth k (snd (run (init_world bs) l)) ONoSlot.
 Definition dspec_out (bs : nat) (l : list op) (k : nat) : out := nth k (snd (drun (init_dworld bs) l)) ONoSlot.
+
+(* ---- what the image contains ------------------------------------------------------------------ *)
+Lemma image_names d draws : dangling d = false -> names (dw (dcrash d draws)) = dents d.
+Proof.
+  intro H. unfold dcrash. cbn [dw names]. apply filter_all.
+  unfold dangling in H. apply negb_false_iff in H. exact H.
+Qed.
+
+Lemma synced_never_lost_lemma : forall d p i draws,
+  dbs d = 0%nat -> dangling d = false -> nget (dents d) p = Some (EFile i) ->
+  snd (sstep (dw (dcrash d draws)) (Slurp p)) = OBytes (iget (ddata d) i).
+Proof.
+  intros d p i draws Hb Hd Hp. cbn [sstep]. rewrite (image_names d draws Hd), Hp. cbn [snd]. f_equal.
+  unfold dcrash. rewrite Hb. cbn [Nat.eqb dw inodes].
+  assert (Hents : filter (fun x => reachable (dents d) (fst x)) (dents d) = dents d).
+  { apply filter_all. unfold dangling in Hd. apply negb_false_iff in Hd. exact Hd. }
+  rewrite Hents. fold (image_files (ddata d) (dents d)).
+  rewrite iget_image, (nget_has_ino _ p i Hp). reflexivity.
+Qed.
+
+Lemma unsynced_entry_gone_lemma : forall d p draws,
+  dangling d = false -> nget (dents d) p = None ->
+  snd (sstep (dw (dcrash d draws)) (Exists p)) = OBool false.
+Proof. intros d p draws Hd Hp. cbn [sstep]. rewrite (image_names d draws Hd), Hp. reflexivity. Qed.
+
+(* a background-sync coin is exactly a data sync right after the write *)
+Lemma coin_is_sync_lemma : forall d slot off data h,
+  sget (shs (dw d)) slot = Some h -> sw h = true ->
+  fst (dstep d (WriteAt slot off data true)) =
+  data_sync (fst (dstep d (WriteAt slot off data false))) (sino h).
+Proof.
+  intros d slot off data h Hs Hw. unfold dstep. cbn [sstep]. rewrite Hs, Hw. cbn [negb is_err fst]. reflexivity.
+Qed.
+
+(* ---- refutation witnesses (known classes, durability side) ------------------------------------------- *)
+Definition O_RW1 p := Open 1 p true true false false false false.
+Definition O_RW2 p := Open 2 p true true false false false false.
+
+(* writes issued before a rename are lost although data and entry were synced afterwards *)
+Definition wd_rename_file : list op :=
+  [O_RWC 1 [1]; SyncDir []; WriteAt 1 0 [65; 66] false; Close 1; Rename [1] [2]; O_RW2 [2]; SyncAll 2;
+   SyncDir []; Crash []; Slurp [2]].
+(* a path re-created while its removal is pending loses synced data *)
+Definition wd_recreate : list op :=
+  [Spit [1] [65; 66; 67] false; O_RW1 [1]; SyncAll 1; SyncDir []; Close 1; Unlink [1]; O_WCN 2 [1];
+   WriteAt 2 0 [88] false; SyncAll 2; SyncDir []; Crash []; Slurp [1]].
+(* a never-synced file survives the crash on the durable entry of a removed directory *)
+Definition wd_kind_swap : list op :=
+  [Mkdir [1]; SyncDir []; Rmdir [1]; O_RWC 1 [1]; WriteAt 1 0 [65] false; SyncAll 1; Crash []; Stat [1]].
+
+Lemma c07_rename_file_refuted_lemma :
+  d_in_class 0 KRenameFile wd_rename_file = true /\
+  dspec_out 0 wd_rename_file 9 = OBytes [65; 66] /\ dimpl_out 0 wd_rename_file 9 = OBytes [].
+Proof. vm_compute. auto. Qed.
+
+Lemma c07_recreate_refuted_lemma :
+  d_in_class 0 KRecreate wd_recreate = true /\
+  dspec_out 0 wd_recreate 11 = OBytes [88] /\ dimpl_out 0 wd_recreate 11 = OBytes [].
+Proof. vm_compute. auto. Qed.
+
+Lemma c07_kind_swap_refuted_lemma :
+  dspec_out 0 wd_kind_swap 7 = ODir /\ dimpl_out 0 wd_kind_swap 7 = OFile 1.
+Proof. vm_compute. auto. Qed.
+
+(* ---- a non-trivial history inside the theorem ------------------------------------------------------------ *)
+Definition hd_demo : list op :=
+  [Mkdir [4]; SyncDir []; O_RWC 1 [4; 1]; WriteAt 1 0 [65; 66; 67] false; SyncAll 1;
+   WriteAt 1 1 [88] false; SyncDir [4]; O_RWC 2 [4; 2]; WriteAt 2 0 [70] true; Crash [];
+   Slurp [4; 1]; Exists [4; 2]; O_RW1 [4; 1]; WriteAt 1 3 [89] true; Unlink [4; 1]; Crash []; Slurp [4; 1]].
